@@ -60,6 +60,8 @@ class Ctx:
         if self.build.exists():
             shutil.rmtree(self.build)
         self.build.mkdir(parents=True)
+        for old in (VERIF / "replays" / pid).glob(f"{tier}_*.json"):
+            old.unlink()
         self.obligations: dict[str, dict] = {}  # name -> {file,status,axioms}
         self.failures: list[Failure] = []
         self.samples: list = []
@@ -224,6 +226,13 @@ class Ctx:
                     self.obligations[t]["status"] = "failed"
                     self.logs[f.name + ":" + t] = "no Print Assumptions for theorem"
 
+    def mark_refuted(self, name, refuted_thm):
+        """The positive obligation `name` does not hold of the faithful model: `refuted_thm` (a compiled
+        `..._refuted` theorem) proves its negation.  It counts as decided iff every failure reported for it
+        is a listed known finding."""
+        if name in self.obligations:
+            self.obligations[name]["refuted_by"] = refuted_thm
+
     def add_obligation(self, name, ok, file="", axioms=None):
         self.obligations[name] = {"file": file, "status": "discharged" if ok else "failed", "axioms": axioms}
 
@@ -354,6 +363,7 @@ class Ctx:
         lines = []
         rdir = VERIF / "replays" / self.pid
         seen_known = set()
+        unmatched_obl = set()
         for f in self.failures:
             match = None
             for rec in known:
@@ -366,6 +376,7 @@ class Ctx:
                     lines.append(f"KNOWN-FINDING: property={self.pid} {match.get('text', f.text)}")
                 continue
             violations += 1
+            unmatched_obl.add(f.obligation)
             rdir.mkdir(parents=True, exist_ok=True)
             h = hashlib.sha1((f.obligation + "|" + str(f.key)).encode()).hexdigest()[:10]
             rp = rdir / f"{self.tier}_{h}.json"
@@ -375,8 +386,11 @@ class Ctx:
             print(f"  [{f.obligation}] {f.text}", file=sys.stderr)
         for l in lines:
             print(l)
+        for name, ob in self.obligations.items():
+            if ob["status"] != "discharged" and ob.get("refuted_by") and name not in unmatched_obl:
+                ob["status"] = f"refuted by {ob['refuted_by']} (listed known finding)"
         n_ob = len(self.obligations)
-        n_dis = sum(1 for o in self.obligations.values() if o["status"] == "discharged")
+        n_dis = sum(1 for o in self.obligations.values() if o["status"] == "discharged" or o["status"].startswith("refuted by"))
         axioms = sorted({a for o in self.obligations.values() for a in (o["axioms"] or [])})
         ev = {
             "property_id": self.pid,
